@@ -1,5 +1,202 @@
 package main
 
-// thorough tier: placeholder, extended below (configuration matrix + sensitivity run).
+import (
+	"fmt"
+	"os"
+	"os/exec"
+	"path/filepath"
+	"sort"
+	"strings"
+	"sync"
+
+	"golang.org/x/tools/go/ssa"
+)
+
+// thorough tier:
+//  1. the same rules under a matrix of build configurations (the verdict on every
+//     obligation must be the same in each configuration that type-checks);
+//  2. the sensitivity run: every patch of the catalogue (/verif/mutants/<prop>/*.patch,
+//     /verif/seeded/<prop>-*/patch.diff, /verif/mutants/benign/<prop>-*.patch) is applied to a
+//     scratch copy of /repo, which is then ANALYSED (never run) by a child goosecheck
+//     process; the evidence records which breaking changes are caught and that the
+//     behaviour-preserving ones stay silent. Results never change the verdict on /repo.
+
+var configMatrix = []Config{
+	{Name: "linux/amd64 (no build tags)", GOOS: "linux", GOARCH: "amd64", Tags: ""},
+	{Name: "linux/386 -tags goose", GOOS: "linux", GOARCH: "386", Tags: "goose"},
+	{Name: "linux/arm64 -tags goose", GOOS: "linux", GOARCH: "arm64", Tags: "goose"},
+}
+
 func thorough(id string, run func(p *Prog, r *Report), repo, verif string, r *Report, extra map[string]interface{}) {
+	// --- 1. configuration matrix
+	base := map[string]Status{}
+	for _, o := range r.Obls {
+		base[o.Rule+"\x00"+o.Key] = worst(base[o.Rule+"\x00"+o.Key], o.Status)
+	}
+	var cfgNotes []string
+	for _, cfg := range configMatrix {
+		p2, err := Load(repo, cfg)
+		if err != nil {
+			cfgNotes = append(cfgNotes, fmt.Sprintf("%s: does not load (%v) — skipped", cfg.Name, firstLine(err.Error())))
+			continue
+		}
+		r2 := NewReport(id, p2)
+		run(p2, r2)
+		diff := 0
+		got := map[string]Status{}
+		for _, o := range r2.Obls {
+			got[o.Rule+"\x00"+o.Key] = worst(got[o.Rule+"\x00"+o.Key], o.Status)
+		}
+		for k, st := range got {
+			if st != Discharged && base[k] == Discharged || base[k] == "" && st != Discharged {
+				parts := strings.SplitN(k, "\x00", 2)
+				r.Obls = append(r.Obls, Obligation{Rule: parts[0], Key: parts[1] + " [" + cfg.Name + "]", Pos: "-", Status: st,
+					Detail: "the obligation is discharged under the default configuration but not under " + cfg.Name})
+				if ri := r.ruleIdx[parts[0]]; ri != nil {
+					ri.Instances++
+				}
+				diff++
+			}
+		}
+		r.Configs = append(r.Configs, fmt.Sprintf("%s: %d packages, %d obligations, %d differ from the default configuration", cfg.Name, len(p2.Pkgs), len(r2.Obls), diff))
+	}
+	// restore the global key context of the primary program
+	curProg = r.P
+	keyMemo = map[ssa.Value]string{}
+	extra["config_notes"] = cfgNotes
+
+	// --- 2. sensitivity run
+	type variant struct {
+		name, patch, kind string // kind: breaking | benign
+	}
+	var vs []variant
+	ms, _ := filepath.Glob(filepath.Join(verif, "mutants", id, "*.patch"))
+	for _, m := range ms {
+		vs = append(vs, variant{"mutants/" + id + "/" + filepath.Base(m), m, "breaking"})
+	}
+	ss, _ := filepath.Glob(filepath.Join(verif, "seeded", id+"-*", "patch.diff"))
+	for _, s := range ss {
+		vs = append(vs, variant{"seeded/" + filepath.Base(filepath.Dir(s)), s, "breaking"})
+	}
+	bs, _ := filepath.Glob(filepath.Join(verif, "mutants", "benign", id+"-*.patch"))
+	for _, b := range bs {
+		vs = append(vs, variant{"mutants/benign/" + filepath.Base(b), b, "benign"})
+	}
+	sort.Slice(vs, func(i, j int) bool { return vs[i].name < vs[j].name })
+	self, _ := os.Executable()
+	type res struct {
+		name, kind, outcome string
+		rules                []string
+	}
+	results := make([]res, len(vs))
+	sem := make(chan struct{}, 6)
+	var wg sync.WaitGroup
+	for i, v := range vs {
+		wg.Add(1)
+		go func(i int, v variant) {
+			defer wg.Done()
+			sem <- struct{}{}
+			defer func() { <-sem }()
+			results[i] = res{name: v.name, kind: v.kind}
+			dir, err := os.MkdirTemp("", "goosecheck-variant-")
+			if err != nil {
+				results[i].outcome = "skipped: " + err.Error()
+				return
+			}
+			defer os.RemoveAll(dir)
+			if out, err := exec.Command("cp", "-a", repo+"/.", dir).CombinedOutput(); err != nil {
+				results[i].outcome = "skipped: copy failed: " + firstLine(string(out))
+				return
+			}
+			os.RemoveAll(filepath.Join(dir, ".git"))
+			ap := exec.Command("git", "apply", v.patch)
+			ap.Dir = dir
+			if out, err := ap.CombinedOutput(); err != nil {
+				results[i].outcome = "skipped: patch does not apply to the current tree (" + firstLine(string(out)) + ")"
+				return
+			}
+			cmd := exec.Command(self, "-prop", id, "-repo", dir, "-verif", verif, "-no-evidence")
+			out, _ := cmd.CombinedOutput()
+			viol := false
+			for _, ln := range strings.Split(string(out), "\n") {
+				if strings.HasPrefix(ln, "VIOLATION") {
+					viol = true
+				}
+				if strings.HasPrefix(ln, "  rule ") {
+					f := strings.Fields(ln)
+					if len(f) > 1 {
+						results[i].rules = append(results[i].rules, f[1])
+					}
+				}
+			}
+			if viol {
+				results[i].outcome = "reported"
+			} else {
+				results[i].outcome = "silent"
+			}
+		}(i, v)
+	}
+	wg.Wait()
+	caught, total, benignSilent, benignTotal := 0, 0, 0, 0
+	var rows []map[string]interface{}
+	var missed, falseAlarms []string
+	for _, x := range results {
+		row := map[string]interface{}{"variant": x.name, "kind": x.kind, "outcome": x.outcome, "rules": uniqSorted(x.rules)}
+		rows = append(rows, row)
+		if strings.HasPrefix(x.outcome, "skipped") {
+			continue
+		}
+		if x.kind == "breaking" {
+			total++
+			if x.outcome == "reported" {
+				caught++
+			} else {
+				missed = append(missed, x.name)
+			}
+		} else {
+			benignTotal++
+			if x.outcome == "silent" {
+				benignSilent++
+			} else {
+				falseAlarms = append(falseAlarms, x.name)
+			}
+		}
+	}
+	extra["sensitivity"] = map[string]interface{}{
+		"explanation":        "each variant is a patch applied to a scratch copy of /repo that is analysed (not executed) by the same rules; breaking variants are hand-written mutants and the independently seeded changes for this property, benign variants are behaviour-preserving refactorings",
+		"breaking_caught":    caught,
+		"breaking_total":     total,
+		"breaking_missed":    missed,
+		"benign_silent":      benignSilent,
+		"benign_total":       benignTotal,
+		"benign_false_alarm": falseAlarms,
+		"variants":           rows,
+	}
+	fmt.Printf("%s thorough: configurations %d; sensitivity: %d/%d breaking variants reported, %d/%d benign variants silent\n", id, len(configMatrix)+1, caught, total, benignSilent, benignTotal)
+	if len(missed) > 0 {
+		fmt.Printf("  note: not reported by %s's own rules (may be covered by another property's check): %v\n", id, missed)
+	}
+	if len(falseAlarms) > 0 {
+		fmt.Printf("  note: benign variants that raised an alarm: %v\n", falseAlarms)
+	}
+}
+
+func worst(a, b Status) Status {
+	rank := map[Status]int{"": 0, Discharged: 1, Undecided: 2, Violated: 3}
+	if rank[b] > rank[a] {
+		return b
+	}
+	return a
+}
+
+func firstLine(s string) string {
+	if i := strings.Index(s, "\n"); i >= 0 {
+		return s[:i]
+	}
+	return s
+}
+
+func uniqSorted(s []string) []string {
+	sort.Strings(s)
+	return uniq(s)
 }
